@@ -30,7 +30,9 @@
 (***************************************************************************)
 EXTENDS ConnStream, Json
 
-CONSTANT TraceFile
+CONSTANTS TraceFile,
+          Relaxed    \* TRUE: silent steps may be taken before ANY event (slow, complete by construction); the
+                     \* check re-validates with it every trace that the pruned search (FALSE) could not explain
 Trace == ndJsonDeserialize(TraceFile)
 
 VARIABLES l,   \* index of the next event to explain
@@ -76,16 +78,17 @@ Target == IF Is("line") THEN Ev.k
                THEN (IF Sock THEN LastOwned(Ev.w) ELSE Len(AllLines))
           ELSE IF (Dgram /\ Is("cancel")) \/ (Fifo /\ Is("opened")) THEN Len(AllLines)
           ELSE 0
-MaySend     == NSent < Target /\ NSent < Len(AllLines)
+MaySend     == (Relaxed \/ NSent < Target) /\ NSent < Len(AllLines)
 SendTurn(c) == MaySend /\ Mine(c, NextText)
 \* the next event's precondition depends on handler c having progressed (EOF / timeout / close / exit)
-NeedHandler(c) == \/ SendTurn(c)
+NeedHandler(c) == \/ Relaxed
+                  \/ SendTurn(c)
                   \/ (Is("writefail") /\ (~Sock \/ c = Ev.w))    \* EPIPE/ECONNRESET: that read side is gone
                   \/ (Is("openfail") /\ ~Sock)                   \* ENXIO: the pipe's reader is gone
                   \/ (Is("opened") /\ Fifo)                      \* EOF may have been seen just before this open
                   \/ Terminal
 \* ... on the closer goroutine having closed the listener / the channel
-NeedCloser == Terminal \/ (Sock /\ (Is("openfail") \/ (Is("writefail") /\ h[Ev.w].pc = "none")))
+NeedCloser == Relaxed \/ Terminal \/ (Sock /\ (Is("openfail") \/ (Is("writefail") /\ h[Ev.w].pc = "none")))
 \* ... on connection w having been accepted
 \*     (closing the listener discards the backlog, so whatever may close it may be preceded by accepts)
 NeedConn(w) == Sock /\ (SendTurn(w) \/ (MaySend /\ cfg.oneShot) \/ AllSilent \/ NeedCloser)
@@ -102,17 +105,20 @@ Eligible(w)  == HasFuture(w) \/ ~started \/ DEV_HandlerAddedAfterWait
 AcceptTurn(w) == cfg.oneShot \/ SendTurn(w) \/ \A w2 \in pend : w2 < w => ~Eligible(w2)
 \* steps local to one handler commute with the local steps of every other handler: lowest handler first
 LocalPossible(c) == CanDeadline(c) \/ CanEof(c) \/ CanTimeout(c) \/ h[c].pc = "fin" \/ (Sock /\ CanExit(c))
-MyTurn(c) == SendTurn(c) \/ \A c2 \in Chans : c2 < c => ~(NeedHandler(c2) /\ LocalPossible(c2))
+MyTurn(c) == Relaxed \/ SendTurn(c) \/ \A c2 \in Chans : c2 < c => ~(NeedHandler(c2) /\ LocalPossible(c2))
 
 \* every datagram read ends up in some later line: what is in the buffer after the read must start one
 DgramCompat(nb) ==
   \E j \in (NSent + 1)..Len(AllLines) :
      /\ DEV_DgramSharedBuffer => j = NSent + 1
      /\ IF HasLF(nb) THEN AllLines[j] = SubSeq(nb, 1, FirstLF(nb) - 1) ELSE IsPrefixOf(nb, AllLines[j])
-DropHead == /\ cfg.lossy /\ Dgram /\ q[0] # <<>> /\ h[0].pc = "read" /\ (MaySend \/ Terminal)
+DropHead == /\ cfg.lossy /\ Dgram /\ q[0] # <<>> /\ h[0].pc = "read" /\ NeedHandler(0)
             /\ q' = [q EXCEPT ![0] = Tail(@)] /\ dropped' = TRUE
+            \* as if KDrop had taken it on arrival: it never "landed"
+            /\ LET i == Len(landed[0]) - Len(q[0]) + 1 IN
+                 landed' = [landed EXCEPT ![0] = SubSeq(@, 1, i - 1) \o SubSeq(@, i + 1, Len(@))]
             /\ UNCHANGED <<cfg, wst, nwr, inflight, lis, pend, acc, closer, started, connWg, h, buf, dl,
-                           cancelled, out, chanClosed, panic, wr, landed, rd, zeroRead>>
+                           cancelled, out, chanClosed, panic, wr, rd, zeroRead>>
 
 (* environment events *)
 TOpen      == Is("open") /\ EOpen(Ev.w) /\ Consume
@@ -152,20 +158,21 @@ TEnd == /\ Is("end") /\ UNCHANGED vars /\ Consume
 TSilent ==
   /\ Silent
   /\ \/ \E w \in Writers : KOpenLand(w) /\ (\/ (Is("opened") /\ Ev.w = w)
+                                             \/ (Relaxed /\ WillOpen(w))
                                              \/ (Sock /\ NeedCloser /\ LandTurn(w))      \* before the listener is closed
                                              \/ (Fifo /\ NeedHandler(0) /\ LandTurn(w))  \* before the reader closes its end
                                              \/ AllSilent)
-     \/ \E w \in Writers : KLand(w) /\ ((Is("written") /\ (Ev.w = w \/ ~Sock)) \/ SendTurn(Chan(w)) \/ AllSilent)
+     \/ \E w \in Writers : KLand(w) /\ (Relaxed \/ (Is("written") /\ (Ev.w = w \/ ~Sock)) \/ SendTurn(Chan(w)) \/ AllSilent)
      \* udp loss: a datagram dropped on arrival (KDrop) cannot be told from one discarded just before it would
      \* have been read; the second form is used here, so TLC need not guess at every "written" event
      \/ DropHead
-     \/ \E w \in Writers : SAccept(w) /\ NeedConn(w) /\ (AllSilent \/ SendTurn(w) \/ (Eligible(w) /\ AcceptTurn(w)))
+     \/ \E w \in Writers : SAccept(w) /\ NeedConn(w) /\ (Relaxed \/ AllSilent \/ SendTurn(w) \/ (Eligible(w) /\ AcceptTurn(w)))
      \/ SAdd /\ NeedConn(acc.cur)
      \/ (SAcceptFail \/ SCloserStart \/ SCloserWait) /\ NeedCloser
      \/ /\ SCloserListener /\ NeedCloser
         /\ AllSilent \/ (~OpensPending /\ \A w \in Writers : HasFuture(w) => h[w].pc # "none")
      \/ SReadDgram /\ (AllSilent \/ (MaySend /\ DgramCompat(buf'[h'[0].key])))
-     \/ SReadZeroDgram /\ (MaySend \/ Terminal \/ Is("cancel"))
+     \/ SReadZeroDgram /\ (NeedHandler(0) \/ Is("cancel"))
      \/ \E c \in Chans :
           \/ (SDeadline(c) \/ SReadEof(c) \/ SReadTimeout(c)) /\ NeedHandler(c) /\ MyTurn(c)
           \/ SCloseFd(c) /\ NeedHandler(c) /\ MyTurn(c) /\ (Fifo => AllSilent \/ ~OpensPending)
